@@ -75,7 +75,7 @@ class Analysis:
     """Explores every path of one entry computation."""
 
     def __init__(self, prog, mode='inv', raise_ops=False, summaries=None, max_paths=40000,
-                 unroll=2, max_depth=12, hooks=None):
+                 unroll=2, max_depth=12, hooks=None, drop_asserts=False):
         self.prog = prog
         self.mode = mode              # 'inv' (loop invariants) | 'unroll'
         self.raise_ops = raise_ops
@@ -86,6 +86,7 @@ class Analysis:
         self.widen = {}               # (loop node id, varkey) -> level
         self.widen_requests = {}
         self.hooks = hooks or {}
+        self.drop_asserts = drop_asserts     # python -O: assert statements are not compiled
         self.visited_calls = set()
         self.rounds = 0
         self.dropped = 0
@@ -428,6 +429,9 @@ class Interp(ExprMixin, LoopMixin, CallMixin):
         self.event('global-decl', st, names=list(st.names))
 
     def st_Assert(self, st):
+        if self.an.drop_asserts:
+            self.event('assert-dropped', st)
+            return
         t = self.truth(self.eval(st.test))
         self.event('assert', st, truth=t)
         if not t:
